@@ -636,7 +636,7 @@ Section Shape.
   Proof.
     intros (Hl & HG & HK) Hv Hm Hm' Eh Ed El En Hx Hnx He O1 O2 O3 O4 O5 Hown Hkt.
     assert (Hm0 : w_my (s_v a t) = Some r) by (rewrite Hv; exact Hm).
-    destruct (k_my (HK t) _ Hm0) as [Hr1 Hr2].
+    destruct (k_my (HK t) Hm0) as [Hr1 Hr2].
     assert (Hxs : forall x, x <> r -> stt g' x = stt g x) by (intros x Hne; apply (Hx x Hne)).
     assert (Hun : forall x, unowned a x -> unowned (setv a t l') x).
     { intros x H v. cbn. unfold upd. destruct (Nat.eqb_spec v t) as [E|E]; [|apply H].
